@@ -406,3 +406,10 @@ Definition trun_layout (fo : frag_out) : list (N * N * N) :=
    decode time, every later decode time is accumulated from the durations *)
 Definition retime_seg (seg : list fsample) : list fsample :=
   match seg with [] => [] | s :: _ => retime (fs_dts s) seg end.
+
+(* combine-segs end to end: one single-trun input fragment per track, read with trex = nil *)
+Record mux_input := mkMuxIn { mi_frag : frag_in; mi_trun : trun_in; mi_sizes : list N; mi_trex : trex }.
+Definition mux_read (tx : bool) (x : mux_input) : list fsample :=
+  map fst (read_trun (mi_frag x) (if tx then Some (mi_trex x) else None) (mi_trun x) (mi_sizes x)).
+Definition combine_inputs (ids : list N) (xs : list mux_input) : frag_out :=
+  combine_tracks ids (map (mux_read false) xs).
